@@ -292,6 +292,11 @@ class SpecTheory:
     def law(self, ex, op, *vals):
         return self.laws.get(op)
 
+    HLR = z3.Function("hash_tuple_of_ranges", z3.ArraySort(z3.IntSort(), RangeDT), z3.IntSort(), z3.IntSort())
+
+    def hash_alist(self, ex, l):
+        return self.HLR(l.arr, l.n)
+
     def sym_range(self, name):
         return self.rshape.fresh(name)
 
